@@ -2,6 +2,7 @@
 # usage: tools/diagonal.sh [<seeded-id>...] — applies every seeded change, runs only the quick check of the property it was written
 # against (seeded/<id>/meta.json "property"), reverts; prints one line per change (X = failing input, n = no-failing-input-found,
 # MISSED = the check holds).
+export VERIF_EVIDENCE_DIR=/verif/work/evidence-scratch   # keep the committed evidence (unchanged tree, seed 1) intact
 cd /verif
 ids="${@:-$(cd seeded && ls -d */ | tr -d /)}"
 for id in $ids; do
